@@ -30,7 +30,7 @@ def decode(ds, path):
     return [int(np.asarray(e["a"]).reshape(-1)[0]) for e in it.iterate_shard(path)]
 
 
-def run_case(case, fmt, tmp):
+def run_case(case, fmt, tmp, select=False):
     root = Path(tmp) / "d"
     if root.exists():
         shutil.rmtree(root)
@@ -85,14 +85,29 @@ def run_case(case, fmt, tmp):
                   for si in range(3) if SPLITS[si] in ds2._dataset_info.splits}
     except Exception as ex:  # noqa: BLE001
         listed = f"{type(ex).__name__}: {ex}"[:200]
-    return {"shards": shards, "raised": raised, "error": error, "listed": listed}
+    selected = None
+    if select and not isinstance(listed, str):
+        selected = {}
+        for si in range(3):
+            if SPLITS[si] not in ds2._dataset_info.splits:
+                continue
+            vals = sorted({sh[2] for sh in shards.get(str(si), [])})
+            for v in vals:
+                try:
+                    got = [int(np.asarray(e["a"]).reshape(-1)[0]) for e in ds2.as_numpy_iterator(
+                        split=SPLITS[si], repeat=False, shuffle=0,
+                        shard_filter=lambda s, v=v: int(s.custom_metadata.get("k", 0)) == v)]
+                except Exception as ex:  # noqa: BLE001
+                    got = f"{type(ex).__name__}"
+                selected[f"{si}:{v}"] = got
+    return {"shards": shards, "raised": raised, "error": error, "listed": listed, "selected": selected}
 
 
 def main():
     req = json.load(sys.stdin)
     tmp = tempfile.mkdtemp(prefix="verif_filler_")
     try:
-        res = [run_case(c, req.get("format", "fb"), tmp) for c in req["cases"]]
+        res = [run_case(c, req.get("format", "fb"), tmp, req.get("select", False)) for c in req["cases"]]
     finally:
         shutil.rmtree(tmp, ignore_errors=True)
     print("@@RESULT@@" + json.dumps({"results": res}))
